@@ -739,3 +739,81 @@ def c15_bic(a, b):
     fresh = json.loads(subprocess.run([sys.executable, "-c", code, b], capture_output=True, text=True, env=__import__("os").environ).stdout.strip().splitlines()[-1])
     obs(a)
     return "ok" if fresh == obs(b) else "differs"
+
+
+def _c12_check_pair(BIC, banks, cc, code):
+    from schwifty.exceptions import InvalidBankCode
+    from spec import registry_ref as R
+
+    idx, bidx = R.by_code(banks), R.by_bic(banks)
+    want = R.candidates(idx, cc, code)
+    try:
+        got = [str(x) for x in BIC.candidates_from_bank_code(cc, code)]
+        objs = BIC.candidates_from_bank_code(cc, code)
+    except InvalidBankCode:
+        got, objs = None, []
+    if got != want:
+        return "candidates"
+    for c in objs:
+        if code not in c.domestic_bank_codes or not c.exists:
+            return "reverse"
+        for attr, key in (("domestic_bank_codes", "bank_code"), ("bank_names", "name"), ("bank_short_names", "short_name")):
+            if getattr(c, attr) != R.values_for_bic(bidx, str(c), key):
+                return "reverse " + attr
+    try:
+        ch = str(BIC.from_bank_code(cc, code))
+    except InvalidBankCode:
+        ch = None
+    if not want:
+        return None if ch is None else "chosen for empty"
+    return None if ch is not None and R.chosen_ok(want, ch) else "chosen"
+
+
+def c12_registry(banks_json):
+    import json
+
+    from schwifty import registry
+    from schwifty.bic import BIC
+
+    banks = json.loads(banks_json)
+    saved = {n: registry._registry.get(n) for n in ("bank", "bic", "bank_code", "country")}
+    try:
+        registry.save("bank", [dict(b) for b in banks])
+        registry.build_index("bank", index_name="bic", key="bic", accumulate=True)
+        registry.build_index("bank", index_name="bank_code", key=("country_code", "bank_code"), accumulate=True)
+        for cc in ("DE", "FR"):
+            for code in ("1", "2"):
+                bad = _c12_check_pair(BIC, banks, cc, code)
+                if bad:
+                    return bad
+    finally:
+        for n, v in saved.items():
+            if v is not None:
+                registry._registry[n] = v
+    return "ok"
+
+
+def c12_iban(cc, bban):
+    import schwifty
+    from schwifty.bic import BIC
+    from spec import registry_ref as R
+    from spec import table
+
+    banks = table.banks()
+    idx = R.by_code(banks)
+    x = schwifty.IBAN.from_bban(cc, bban)
+    ref = table.countries()[cc]
+    pos = table.positions(cc)
+    key = "".join(bban[pos[c][0] : pos[c][1]] for c in ref.get("bic_lookup_components", ["bank_code"]) if c in pos)
+    es = idx.get((cc, key))
+    if es is None:
+        return "ok" if x.bank is None and x.bic is None and x.bank_name is None and x.bank_short_name is None else "unlisted"
+    if x.bank != es[0] or x.bank_name != es[0]["name"] or x.bank_short_name != es[0]["short_name"]:
+        return "bank"
+    want = R.candidates(idx, cc, key)
+    if want:
+        if x.bic is None or not R.chosen_ok(want, str(x.bic)):
+            return "bic"
+    elif x.bic is not None:
+        return "bic none"
+    return _c12_check_pair(BIC, banks, cc, key) or "ok"
